@@ -46,19 +46,38 @@ def run(ctx):
     for i in range(25 if q else 600):
         k = rng.choice([1, 2, 3, 3])
         plans.append((k, [(rng.choice(ops), rng.randrange(k)) for _ in range(rng.choice([6, 10, 16]))]))
+    # two enforcers over the same files: both have loaded, the main file (or a directory file)
+    # changes, one loads first - the other must still see the change
+    SHARED = []
+    for edit in (('write', 'main', 'new'), ('write', 'main', 'old'), ('empty', 'main'), ('delete', 'main'), ('write', 'd1/a', 'new'), ('delete', 'd1/a'), ('delete', 'd1/b')):
+        for order in ((0, 1), (1, 0)):
+            SHARED.append([('load', 0), ('load', 1), ('edit!', edit), ('load', order[0]), ('load', order[1]), ('forceload', order[0]), ('load', order[1])])
+    for seq in SHARED:
+        plans.append(('shared', seq))
     by_cfg = {}
     for k, seq in plans:
+        force_shared = k == 'shared'
+        if force_shared:
+            k = 2
         variant = rng.choice(['renamed', 'renamed', 'split', 'same', 'plain', 'renamed_same'])
         shared = lc.defaults_for(variant, rng.randrange(len(lc.STYLES)))
         # each enforcer has its own option values: enforce_new_defaults and the overwrite mode
         lives = [lc.Live(rng, variant, rng.random() < 0.5, defaults=shared, via=rng.choice(['enforce', 'rules']), overwrite=rng.random() < 0.7) for _ in range(k)]
+        if k >= 2 and (force_shared or rng.random() < 0.4):
+            # two of the enforcers read the same files (same paths), with their own option values
+            lives[1].close()
+            lives[1] = lc.Live(rng, variant, not lives[0].enforce_new, defaults=shared, via='enforce', overwrite=lives[0].overwrite, box=lives[0].box)
+            lives[0].peers = lives[1].peers = [lives[0], lives[1]]
         try:
             # each enforcer starts from its own files
             for lv in lives:
-                for w in rng.sample([('write', 'main', 'new'), ('write', 'd1/a', 'old'), ('write', 'd2/a', 'alias'), ('write', 'd1/b', 'both')],
-                                    rng.randint(0, 3)):
+                for w in ([('write', 'main', 'fixed'), ('write', 'd1/a', 'old'), ('write', 'd1/b', 'new')] if force_shared else
+                          rng.sample([('write', 'main', 'new'), ('write', 'd1/a', 'old'), ('write', 'd2/a', 'alias'), ('write', 'd1/b', 'both')], rng.randint(0, 3))):
                     lv.step(w)
             for op, ei in seq:
+                if op == 'edit!':
+                    lives[0].step(ei)          # a prescribed file change (ei holds the operation)
+                    continue
                 lv = lives[ei]
                 if op == 'edit':
                     lv.step(rng.choice(lc.FS_OPS))
